@@ -12,31 +12,37 @@
      - the exact checker run on the implementation's outputs is sound (tri_check_soundness).
    What is NOT proved:
      - each triangle CCW within epsilon (floating ear costs): decided on outputs by tri_check;
-     - earclip_contract_partial is in certificate form: its hypotheses init_ok (state after
-       Initialize), nbad = 0 (JoinPolygons only joins two different live rings, no ring of
-       <= 2 records is clipped) and rings_closed (DEBUG_ASSERT(v->right == v->left)) are
-       executable and evaluated on every replayed run of the implementation, not proved;
+     - earclip_contract_partial keeps two executable hypotheses: nbad = 0 (JoinPolygons only
+       joins two different live rings, no ring of <= 2 records is clipped) and rings_closed
+       (DEBUG_ASSERT(v->right == v->left)); both are evaluated on every replayed run of the
+       implementation, not proved for every oracle;
      - fuel sufficiency of Loop / ClipIfDegenerate (results are stated for runs that return). *)
 From Coq Require Import ZArith List Bool.
-From MV Require Import Base.Chain Tri.EarClipDefs Tri.EarClipModel Tri.ConvexModel
+From MV Require Import Base.Chain Tri.EarClipDefs Tri.EarClipModel Tri.EarClipInit Tri.ConvexModel
   Tri.TriCheckDefs Tri.TriCheckModel.
 Import ListNotations.
 
-(* earclip_chain / earclip_count / indices, certificate form.  Missing for the full
-   statement: a proof that init_ok, nbad = 0 and rings_closed always hold (needs the ghost
-   ring decomposition: each label class of live records is a single cycle). *)
+(* earclip_chain / earclip_count / indices.  For every oracle and every run that returns:
+   if the ghost counter nbad is 0 (JoinPolygons was only called on a live start and a live
+   connector other than start->right; TriangulatePoly never clipped a ring of <= 2 records)
+   the chain invariant, index validity and the clip counts hold; if moreover every remaining
+   ring is closed (rings_closed = the code's DEBUG_ASSERT(v->right == v->left)) the emitted
+   triangles satisfy the chain identity: every input edge once in its direction, every other
+   edge cancelled by its reverse.
+   PARTIAL: nbad = 0 and rings_closed are executable and are evaluated on every replayed run
+   of the implementation, but not proved to hold for every oracle (that needs the ghost ring
+   decomposition: holes and outers lie in different rings, Loop counts exactly its ring);
+   fuel sufficiency of Loop / ClipIfDegenerate is not proved either (statement is for runs
+   that return). *)
 Theorem earclip_contract_partial :
   forall (orc : Oracle) (fuel : nat) (polys : list (list Z)) (st : St),
-  triangulate orc fuel polys = Some st ->
-  exists st1 starts,
-    initialize (reset polys) polys = Some (st1, starts) /\
-    (init_ok polys st1 = true -> nbad st = 0 ->
-       (forall a b, coef (boundaries (tris st) ++ live_edges st) a b = coef (contours polys) a b) /\
-       TrisIn (concat polys) st /\
-       length (tris st) + nfilt st = nclip st /\
-       nclip st + nlive st = numVert polys + 2 * njoin st /\
-       (rings_closed st = true -> ceq (boundaries (tris st)) (contours polys))).
-Proof. exact earclip_contract. Qed.
+  triangulate orc fuel polys = Some st -> nbad st = 0 ->
+  (forall a b, coef (boundaries (tris st) ++ live_edges st) a b = coef (contours polys) a b) /\
+  TrisIn (concat polys) st /\
+  length (tris st) + nfilt st = nclip st /\
+  nclip st + nlive st = numVert polys + 2 * njoin st /\
+  (rings_closed st = true -> ceq (boundaries (tris st)) (contours polys)).
+Proof. exact earclip_contract_init. Qed.
 Print Assumptions earclip_contract_partial.
 
 (* the hypotheses are satisfiable: a pentagon with a triangular hole, 8 = V-2+2h-2(o-1) triangles *)
@@ -48,16 +54,24 @@ Example earclip_contract_example :
     njoin st = 1 /\ nlive st = 2 /\ nfilt st = 0 /\ length (tris st) = 8.
 Proof. exact example_run. Qed.
 
-(* V-2+2h-2(o-1) when every hole was joined (h joins: two extra records each), the o
-   remaining rings end with 2 records each and no topological degenerate was filtered *)
-Theorem earclip_count_partial :
-  forall (orc : Oracle) (fuel : nat) (polys : list (list Z)) (st st1 : St) (starts : list nat) (h o : nat),
-  triangulate orc fuel polys = Some st ->
+(* Initialize, for every polygon set: one closed ring per contour, all invariants, every record
+   live, live edges = input contour edges (no hypothesis). *)
+Theorem initialize_establishes_invariants :
+  forall (polys : list (list Z)) (st1 : St) (starts : list nat),
   initialize (reset polys) polys = Some (st1, starts) ->
-  init_ok polys st1 = true -> nbad st = 0 ->
+  Good (concat polys) (numVert polys) st1 /\ nbad st1 = 0 /\ ceq (chain_of st1) (contours polys).
+Proof. exact initialize_good_state. Qed.
+Print Assumptions initialize_establishes_invariants.
+
+(* V-2+2h-2(o-1) when every hole was joined (h joins: two extra records each), the o
+   remaining rings end with 2 records each and no topological degenerate was filtered.
+   PARTIAL in the same sense as earclip_contract_partial (hypothesis nbad = 0). *)
+Theorem earclip_count_partial :
+  forall (orc : Oracle) (fuel : nat) (polys : list (list Z)) (st : St) (h o : nat),
+  triangulate orc fuel polys = Some st -> nbad st = 0 ->
   njoin st = h -> nlive st = 2 * o -> nfilt st = 0 ->
   (Z.of_nat (length (tris st)) = Z.of_nat (numVert polys) - 2 + 2 * Z.of_nat h - 2 * (Z.of_nat o - 1))%Z.
-Proof. exact earclip_count_formula. Qed.
+Proof. exact earclip_count_init. Qed.
 Print Assumptions earclip_count_partial.
 
 (* every list operation is a Step for every oracle: the ghost counter never decreases and,
